@@ -22,6 +22,7 @@ StrSinks2 == StrSinks(2)
 StrFormat(n) == UNION {[1..m -> {cPLAIN, cPCT, cLBRACE, cRBRACE, cFMT}] : m \in 1..n}
 StrFormat2 == StrFormat(2) \cup {<<cLBRACE, cFMT, cRBRACE>>, <<cPCT, cPCT, cFMT>>, <<cPCT, cLT, cFMT>>}
 StrFormat3 == StrFormat(3)
+FormatPalette == {<<cPCT>>, <<cPCT, cPCT>>, <<cPCT, cFMT>>, <<cPLAIN, cPCT>>, <<cLBRACE, cFMT, cRBRACE>>, <<cLBRACE, cRBRACE>>, <<cPCT, cLT, cFMT>>}
 DevBypass == {{"AsciiBypass"}}
 DevFig == {{"FigureNameRaw"}}
 DevUtf8 == {{"TextSinkUtf8"}}
